@@ -47,8 +47,8 @@ CHECKS['C17'] = ('exploration',
    'DESIGN.md 2/C17')
 CHECKS['C18'] = ('exploration',
    'exhaustive table comparison against an independent designation table + runtime symmetry / mating monitors over sampled points of real Screw3D, obj.Bolt, obj.Nut shapes',
-   'Every thread database entry is compared with a table typed from the designations and ISO 261 / ASME B1.1 / B1.20.1; ToMillimetre laws checked on every entry; helical invariance, z-periodicity and a not-invariant-under-opposite-hand guard for all profiles x starts +-1..4; bolt/nut non-intersection for every entry x 16 tolerance pairs on points concentrated on flanks, crests and roots.',
-   'Table is exhaustive over the names the harness knows or can probe (122k candidate spellings); points of space are sampled; tapered pairs checked at the aligned position and towards the thin end.',
+   'Every thread database entry is compared with a table typed from the designations and ISO 261 / ASME B1.1 / B1.20.1; ToMillimetre laws checked on every entry; helical invariance, z-periodicity and a not-invariant-under-opposite-hand guard for all profiles x starts +-1..4; bolt/nut non-intersection for every entry x 16 tolerance pairs on points concentrated on flanks, crests and roots plus a fifth spread over the whole cylinder with extra weight next to the axis; the database is re-read after all objects were built.',
+   'Table is exhaustive over the names the harness knows or can probe (122k candidate spellings); points of space are sampled; tapered pairs checked at the aligned position and towards the thin end; one pinned known finding (tapered nuts keep a cone of material on their axis), overlaps inside that cone are reported under its key.',
    'DESIGN.md 2/C18')
 
 
@@ -69,8 +69,8 @@ CHECKS['C03'] = ('exploration',
    'DESIGN.md 2/C03')
 CHECKS['C12'] = ('fault_enumeration',
    'OS-level fault injection in child processes (RLIMIT_FSIZE at enumerated byte offsets, /dev/full, create failures) with the Go runtime deadlock detector as logical hang oracle; goroutine census (pprof goroutine profile filtered on sdfx frames) at quiescence after each of K renders',
-   'Each ToSTL/To3MF/ToDXF/ToSVG call runs on the main goroutine of a child with no timers; if the writer has gone and the renderer blocks on the channel the runtime reports "all goroutines are asleep - deadlock!", which (or a dump with the caller in chan send) is the violation; returned calls print a marker. Fault points: create (3 kinds), /dev/full, size limits at header, first flush, every n-th flush (thorough: all multiples of 4096 +-1, every 7th byte below 400, 60 PRNG offsets), final flush/seek/rewrite. Census: sdfx goroutines after k=1..K renders must not grow after warm-up.',
-   'K=30 quick / 200 thorough renders per sink/renderer; watchdog expiry is inconclusive, never a violation.',
+   'Each ToSTL/To3MF/ToDXF/ToSVG call runs on the main goroutine of a child with no timers; if the writer has gone and the renderer blocks on the channel the runtime reports "all goroutines are asleep - deadlock!", which (or a dump with the caller in chan send) is the violation; returned calls print a marker. Fault points: create (7 kinds incl. dangling symlink, symlink loop, path below a regular file, over-long name), /dev/full, size limits at header, first flush, every n-th flush (thorough: all multiples of 4096 +-1, every 7th byte below 400, 60 PRNG offsets), final flush/seek/rewrite. Census: sdfx goroutines after k=1..K renders must not grow after warm-up.',
+   'K=30 quick / 200 thorough renders per sink/renderer; a call that spins is ended by RLIMIT_CPU (40 s) and judged on the CPU it consumed; a wall-clock watchdog expiry is inconclusive, never a violation.',
    'DESIGN.md 2/C12')
 
 
@@ -98,26 +98,26 @@ CHECKS['C13'] = ('exploration',
    'DESIGN.md 2/C13')
 CHECKS['C14'] = ('exploration',
    'robustness monitor in child processes: structured and mutation-based hostile STL inputs fed to render.LoadSTL and obj.ImportSTL under recover(), with per-input TotalAlloc accounting and CPU-time (not wall-clock) hang detection; each input is announced before it is loaded so a process death is attributable and re-run alone',
-   'About 20k (quick) / 2M (thorough) generated files: truncated / over-long / count-mismatched binaries, count 0xFFFFFFFF, garbage floats, ASCII with 0,1,2,4,5 vertices per facet, malformed numbers, 70 kB and 1 MB lines, CR/LF/NUL/BOM, files shorter than 84 bytes, bit/byte flips, splices and truncations of the three shipped meshes. Outcome must be error or mesh; allocation <= 1 MiB + 400*size; CPU per input bounded.',
-   'All byte strings are sampled, not exhausted; go test -fuzz is not wired in (structured + mutation generators hit every seeded mutant); a zero-CPU deadlock would only show as a watchdog expiry (inconclusive).',
+   'About 20k (quick) / 2M (thorough) generated files: truncated / over-long / count-mismatched binaries, count 0xFFFFFFFF, garbage floats, ASCII with 0,1,2,4,5 vertices per facet, malformed numbers, 70 kB and 1 MB lines, CR/LF/NUL/BOM, files shorter than 84 bytes, 35000-line ASCII files with one malformed number, gzip / zip / xz / zstd magics with honest, lying and truncated length fields and highly compressible payloads, UTF-8/16/32 byte order marks with complete, truncated and ill-formed text, bit/byte flips, splices and truncations of the three shipped meshes. Outcome must be error or mesh; allocation <= 1 MiB + 400*size; CPU per input bounded.',
+   'All byte strings are sampled, not exhausted; go test -fuzz is not wired in (structured + mutation generators hit every seeded mutant); a goroutine deadlock is decided logically (no CPU for 2 s with every goroutine parked, repeated alone in a fresh child); a wall-clock watchdog expiry alone stays inconclusive.',
    'DESIGN.md 2/C14')
 
 
 CHECKS['C19'] = ('exploration',
    'offline mesh checker (weld + directed-edge balance + signed volume + vertex-to-surface distance + box containment + run-vs-run identity) over triangles received on the channel passed to DualContouringV1/V2.Render',
-   'Exact shapes wrapped with a bounding box enlarged by 10-30% (cubic and elongated sampled volumes) are rendered by both dual-contouring renderers without simplification (V1 LockVertices on; V2 defaults with clamping) at resolutions 8..28 quick / 8..56 thorough; each mesh must be closed after welding, enclose positive volume, keep every vertex within one cell diagonal of the surface and inside the sampled box, and be identical on a second run.',
-   'Volume accuracy is reported, only its sign is judged (the statement asks for positive volume); warnings the renderers log are discarded.',
+   'Exact shapes wrapped with a bounding box enlarged by 10-30% (cubic and elongated sampled volumes) are rendered by both dual-contouring renderers without simplification (V1 LockVertices on; V2 defaults with clamping) at resolutions 8..28 quick / 8..56 thorough, in units from 1e-5 to 1e5, up to 1e5 sizes from the origin, also squashed / stretched (non-distance) fields, boxes exactly 2x / 4x the part, rods at 1100 / 1300 cells and renderer-reuse histories; each mesh must be closed after welding, enclose positive volume, keep every vertex within one cell diagonal of the surface and inside the sampled box, and be identical on a second run.',
+   'Volume accuracy is reported, only its sign is judged (the statement asks for positive volume); warnings the renderers log are discarded; DualContouringV2 in small units (parts of a few thousandths) is judged on closure, orientation, box and determinism only (pinned known finding: vertex drift).',
    'DESIGN.md 2/C19')
 
 
 CHECKS['C04'] = ('exploration',
    'three-way differential monitor: Polygon2D (quadtree) vs Mesh2DSlow vs an exact-arithmetic crossing-number oracle (float filter + big.Rat) with brute-force segment distance, at query points aimed at the measure-zero sets',
-   'Simple polygons (convex, star-shaped, rectilinear staircases with collinear/horizontal/vertical runs, slivers, many-vertex, integer/dyadic/decimal/irrational grids, far offsets, both orientations) are queried on every vertex level, on every quadtree split line and box corner (MeshSDF2.Boxes()), on the bounding box, at vertices +-1 ulp, far outside and uniformly; fast, slow and oracle must agree in sign (away from the boundary) and in magnitude to 1e-9*scale. Pinned witnesses of the four repaired defect classes stay in the workload.',
-   'Polygons are simple by construction (verified exactly on a subset); edges shorter than 1e-6*size are outside the generated domain (VertexToLine closes loops with an absolute tolerance).',
+   'Simple polygons (convex, star-shaped, rectilinear staircases with collinear/horizontal/vertical runs, slivers, many-vertex, integer/dyadic/decimal/irrational grids, far offsets, both orientations) are queried on every vertex level, on every quadtree split line and box corner (MeshSDF2.Boxes()), on the bounding box, at vertices +-1 ulp, far outside and uniformly; fast, slow and oracle must agree in sign (away from the boundary) and in magnitude to 1e-9*scale. Sizes from 2e-3 (fine detail) to 1.4e6 with |coordinate| <= 2^22, junctions listed twice with a rounding difference. Pinned witnesses of the six repaired defect classes stay in the workload; one pinned known finding (coordinates beyond 2^23).',
+   'Polygons are simple by construction (verified exactly on a subset); edges shorter than 1e-6*size (other than a junction listed twice) are outside the generated domain; polygons smaller than 0.14 are compared with an extra absolute 1e-9 (the snap tolerance of the library).',
    'DESIGN.md 2/C04')
 CHECKS['C20'] = ('exploration',
    'runtime oracle monitor: Delaunay2d / Delaunay2dSlow outputs checked with exact in-circle and orientation predicates, an independent convex hull (count 2n-2-h, area) and the harness own exact Delaunay triangulation; TriangleISet.Equals exercised on permuted / rotated copies incl. an exhaustive small-subset sweep',
-   'Point sets n=3..400 (1000 thorough) - uniform, clustered, jittered grids, near-collinear hull chains, nearly cocircular rings, scales 1e-3..1e6, offsets up to 10x extent - are judged only when their true triangulation is robustly unique (margins measured with exact arithmetic, skipped sets counted); Equals must be true for every permutation/rotation of a set and false for really different sets.',
+   'Point sets n=3..400 (1000 thorough) - uniform, clustered, jittered grids, near-collinear hull chains, nearly cocircular rings, close pairs, scales 1e-3..1e6, offsets up to 10x extent (uniform and close-pair sets also 1e3..1e6 extents away) - are judged only when their true triangulation is robustly unique (margins measured with exact arithmetic, skipped sets counted); Equals must be true for every permutation/rotation of a set and false for really different sets.',
    'Known findings (pinned, KNOWN-FINDING lines): hull triangles with circumradius > ~4096 x extent are lost (super triangle), absolute 1e-12 epsilon breaks sets with circumradii below ~1e-3; the random workload keeps explicit margins from both classes.',
    'DESIGN.md 2/C20')
 
